@@ -251,16 +251,16 @@ pub fn c16(o: &Oracle, thorough: bool, seed: u64, rep: &Report) {
         let ev = json!({"op":"two_from_bc","bc":limbs(*x)});
         let got = observe(&ev);
         let exp = if n < 2 {
-            json!({"res": "NotEnoughCards"})
+            json!({"kind": "NotEnoughCards"})
         } else if n > 2 {
-            json!({"res": "TooManyCards"})
+            json!({"kind": "TooManyCards"})
         } else {
             let hi = 63 - x.leading_zeros();
             let lo = x.trailing_zeros();
             if hi < 52 {
-                json!({"res": hilo_arr(&[word_of_bit(o, hi), word_of_bit(o, lo)]), "back": limbs(*x)})
+                json!({"kind": "ok", "res": hilo_arr(&[word_of_bit(o, hi), word_of_bit(o, lo)]), "back": limbs(*x)})
             } else {
-                json!({"res": "InvalidBinaryFormat"})
+                json!({"kind": "InvalidBinaryFormat"})
             }
         };
         for (k, e) in exp.as_object().unwrap() {
